@@ -319,6 +319,9 @@ const watchdog = 120 * time.Second
 type scenario struct {
 	outs  []outcome
 	gates []chan struct{} // nil: ungated (the stubs answer at once)
+	// when set, every stub publishes the context it was called with: requestPart cancels that
+	// context right after its send, so its Done tells the harness "this backend has delivered"
+	ctxCh []chan context.Context
 }
 
 type scenarioKey struct{}
@@ -327,6 +330,9 @@ func stub(i int) proxy.Proxy {
 	return func(ctx context.Context, _ *proxy.Request) (*proxy.Response, error) {
 		sc := ctx.Value(scenarioKey{}).(*scenario)
 		o := sc.outs[i]
+		if sc.ctxCh != nil {
+			sc.ctxCh[i] <- ctx
+		}
 		if o.kind == kCancel {
 			<-ctx.Done()
 			return nil, ctx.Err()
@@ -359,6 +365,10 @@ func newInstance(via, n int, deadline bool) *instance {
 	if deadline {
 		timeout = 30 * time.Millisecond
 	}
+	return newInstanceT(via, n, deadline, timeout)
+}
+
+func newInstanceT(via, n int, deadline bool, timeout time.Duration) *instance {
 	next := make([]proxy.Proxy, n)
 	for i := range next {
 		next[i] = stub(i)
@@ -475,6 +485,188 @@ func (in *instance) run(outs []outcome, pi []int) (mergeOut, []int) {
 	return *res, order
 }
 
+// hold, when set, makes the merging goroutine wait (inside the dequeue hook) after every
+// receive until the harness lets it go on: the harness can then act at an exact point of
+// the collection (e.g. cancel the caller's context between the last send and the last receive).
+var hold chan struct{}
+
+// runLateCancel imposes the arrival order pi like run, and cancels the CALLER's context at an
+// exact point: after the merging goroutine has received k messages (it is held there) and after
+// every other backend has delivered its message into the channels.  No message can be changed
+// by that cancellation, so the outcomes - and what the property demands - are the same as
+// without it.  Backends that are silent until cancelled deliver after the cancellation.
+func (in *instance) runLateCancel(outs []outcome, pi []int, k int) (mergeOut, []int) {
+	n := len(outs)
+	gates := make([]chan struct{}, n)
+	ctxCh := make([]chan context.Context, n)
+	for i := range gates {
+		gates[i] = make(chan struct{})
+		ctxCh[i] = make(chan context.Context, 1)
+	}
+	deq = make(chan struct{}, 4*n+8)
+	h := make(chan struct{})
+	hold = h
+	defer func() { hold = nil }()
+	parent, cancel := context.WithCancel(context.WithValue(context.Background(), scenarioKey{}, &scenario{outs: outs, gates: gates, ctxCh: ctxCh}))
+	done := make(chan mergeOut, 1)
+	go func() {
+		defer func() {
+			if x := recover(); x != nil {
+				done <- mergeOut{panicked: fmt.Sprint(x)}
+			}
+		}()
+		r, e := in.p(parent, newRequest())
+		done <- mergeOut{r: r, e: e}
+	}()
+	var res *mergeOut
+	wd := time.NewTimer(watchdog)
+	defer wd.Stop()
+	die := func(what string) {
+		fmt.Fprintln(os.Stderr, "C01 generator: watchdog (late cancel): "+what)
+		os.Exit(3)
+	}
+	waitDeq := func() bool { // true: one more message received, the merging goroutine is held
+		if res != nil {
+			return false
+		}
+		select {
+		case <-deq:
+			return true
+		case o := <-done:
+			res = &o
+		case <-wd.C:
+			die("the merge neither dequeued nor returned")
+		}
+		return false
+	}
+	resume := func() {
+		if res != nil {
+			return
+		}
+		select {
+		case h <- struct{}{}:
+		case o := <-done:
+			res = &o
+		case <-wd.C:
+			die("the merging goroutine is not waiting in the hook")
+		}
+	}
+	var seq, cancels []int
+	for _, b := range pi {
+		if outs[b].kind == kCancel {
+			cancels = append(cancels, b)
+		} else {
+			seq = append(seq, b)
+		}
+	}
+	if k > len(seq) {
+		k = len(seq)
+	}
+	released := make([]bool, n)
+	received := 0
+	for j := 0; j < k; j++ {
+		close(gates[seq[j]])
+		released[seq[j]] = true
+		if !waitDeq() {
+			break
+		}
+		received++
+		if j < k-1 {
+			resume()
+		}
+	}
+	if res == nil {
+		// the merging goroutine is held after its k-th receive: let every other backend deliver
+		for _, b := range seq[k:] {
+			close(gates[b])
+			released[b] = true
+			var c context.Context
+			select {
+			case c = <-ctxCh[b]:
+			case <-wd.C:
+				die("a backend was never called")
+			}
+			select {
+			case <-c.Done(): // requestPart has sent its message and cancelled the backend's context
+			case o := <-done:
+				res = &o
+			case <-wd.C:
+				die("a released backend did not deliver")
+			}
+		}
+		cancel() // the caller goes away now
+		resume()
+		for received < n && res == nil {
+			if !waitDeq() {
+				break
+			}
+			received++
+			resume()
+		}
+	}
+	if res == nil {
+		select {
+		case o := <-done:
+			res = &o
+		case <-wd.C:
+			die("the merge did not return")
+		}
+	}
+	cancel()
+	for i := 0; i < n; i++ {
+		if !released[i] && outs[i].kind != kCancel {
+			close(gates[i])
+		}
+	}
+	return *res, append(append([]int{}, seq...), cancels...)
+}
+
+// lateCancel runs one scenario with the caller's context cancelled after k receives.
+func (g *gen) lateCancel(stream string, via int, outs []outcome, pi []int, k int) {
+	res, order := newInstance(via, len(outs), false).runLateCancel(outs, pi, k)
+	g.record(stream, via, outs, order, res, map[string]interface{}{
+		"caller_context_cancelled": fmt.Sprintf("after the merging goroutine had received %d message(s) and every other backend had delivered", k)})
+}
+
+// deadlineZero: an endpoint whose timeout is 0, so the merge context has expired before any
+// backend is called.  A backend with a payload then delivers either the payload or the
+// deadline error (the select of requestPart, a runtime choice): which one happened is read
+// off the response (every payload carries a private marker field), and the property is
+// checked for THOSE outcomes - in particular, when every payload got through, the response
+// must be flagged complete although the context was done all along.
+func (g *gen) deadlineZero(via int, outs []outcome) {
+	n := len(outs)
+	in := newInstanceT(via, n, false, 0)
+	deq = make(chan struct{}, 4*n+8)
+	var res mergeOut
+	func() {
+		defer func() {
+			if x := recover(); x != nil {
+				res = mergeOut{panicked: fmt.Sprint(x)}
+			}
+		}()
+		r, e := in.p(context.WithValue(context.Background(), scenarioKey{}, &scenario{outs: outs}), newRequest())
+		res = mergeOut{r: r, e: e}
+	}()
+	eff := make([]outcome, n)
+	var cfgd []interface{}
+	for i, o := range outs {
+		eff[i] = o
+		cfgd = append(cfgd, o.js())
+		if o.kind == kPayload {
+			ok := false
+			if res.r != nil {
+				_, ok = res.r.Data[fmt.Sprintf("m%d", i)]
+			}
+			if !ok {
+				eff[i] = outcome{kind: kCancel, deadline: true}
+			}
+		}
+	}
+	g.record("deadline-zero", via, eff, identity(n), res, map[string]interface{}{"endpoint_timeout": 0, "configured_backends": cfgd,
+		"note": "backends listed are the effective outcomes: a payload whose marker field m<i> is absent was replaced by the deadline error"})
+}
+
 // ---- case emission ---------------------------------------------------------------------
 
 func intsStr(xs []int) string {
@@ -559,8 +751,12 @@ func (g *gen) record(stream string, via int, outs []outcome, order []int, res me
 	term := emit.App("CMerge", emit.Nat(via), emit.List(ol), emit.NatList(order), oc)
 	js := map[string]interface{}{"level": "merge", "stream": stream, "via": []string{"NewMergeDataMiddleware", "DefaultFactory"}[via],
 		"backends": ojs, "imposed_arrival_order": order, "observed": oj}
+	suffix := ""
 	for k, v := range extra {
 		js[k] = v
+		if k == "caller_context_cancelled" || k == "endpoint_timeout" {
+			suffix += fmt.Sprintf("|%s=%v", k, v)
+		}
 	}
 	g.w.Count("level:merge")
 	g.w.Count("stream:" + stream)
@@ -577,7 +773,7 @@ func (g *gen) record(stream string, via int, outs []outcome, order []int, res me
 			g.w.Count("first-arrival:payload")
 		}
 	}
-	g.w.Add(term, js, "", fmt.Sprintf("M|%d|%s|%s", via, canonOuts(outs), intsStr(order)), nontrivial(outs))
+	g.w.Add(term, js, "", fmt.Sprintf("M|%d|%s|%s%s", via, canonOuts(outs), intsStr(order), suffix), nontrivial(outs))
 }
 
 // ---- instance reuse ----------------------------------------------------------------------
@@ -1118,6 +1314,9 @@ func main() {
 	proxy.SetVerifOnDequeue(func(site string) {
 		if site == "merge" {
 			deq <- struct{}{}
+			if h := hold; h != nil {
+				<-h
+			}
 		}
 	})
 
@@ -1250,6 +1449,78 @@ func main() {
 		}
 	}
 
+	// 1d. the caller's context is cancelled late: after every backend has delivered, between
+	// the receives of the merging goroutine or after its last one.  Nothing a backend did
+	// changes, so the response must be what it would have been (complete when all were).
+	lateCorpus := [][]outcome{
+		{P(true, obj("a", 1)), P(true, obj("b", 2))},
+		{P(true, obj("a", 1)), P(true, obj("b", 2)), P(true, obj("c", 3))},
+		{P(true, obj("a", 1)), P(false, obj("b", 2))},
+		{P(true, obj("a", 1)), E("x"), P(true, obj("c", 3))},
+		{P(true, obj("a", 1)), C, P(true, obj("c", 3))},
+		{P(true, nil), P(true, obj("c", 3))},
+	}
+	for _, outs := range lateCorpus {
+		n := len(outs)
+		for via := 0; via < 2; via++ {
+			for k := 1; k <= n; k++ {
+				g.lateCancel("late-cancel-corpus", via, outs, identity(n), k)
+			}
+		}
+	}
+	for v := 0; v < smallKinds*smallKinds; v++ {
+		outs := []outcome{smallOutcome(v%smallKinds, 0), smallOutcome(v/smallKinds, 1)}
+		if outs[0].kind == kCancel && outs[1].kind == kCancel {
+			continue
+		}
+		for _, pi := range perms(2) {
+			for k := 1; k <= 2; k++ {
+				if (outs[0].kind == kCancel || outs[1].kind == kCancel) && (k == 2 || pi[0] != 0) {
+					continue // one message besides the cancelled backend: a single schedule
+				}
+				g.lateCancel("late-cancel-n2", 0, outs, pi, k)
+			}
+		}
+	}
+	nLate, nZero := 300, 48
+	if cfg.Thorough() {
+		nLate, nZero = 3000, 600
+	}
+	for c := 0; c < nLate; c++ {
+		n := 2 + r.Intn(5)
+		outs := make([]outcome, n)
+		live := 0
+		for i := range outs {
+			outs[i] = randOutcome(r, i, true)
+			if outs[i].kind != kCancel {
+				live++
+			}
+		}
+		if live == 0 {
+			outs[0] = P(true, randData(r, 0))
+			live = 1
+		}
+		g.lateCancel("late-cancel-random", r.Intn(2), outs, r.Perm(n), 1+r.Intn(live))
+	}
+	// 1e. endpoint timeout 0: the merge context is done from the start
+	for c := 0; c < nZero; c++ {
+		n := 2 + r.Intn(2)
+		outs := make([]outcome, n)
+		for i := range outs {
+			switch x := r.Intn(10); {
+			case x < 7:
+				outs[i] = P(true, obj(fmt.Sprintf("m%d", i), i, "shared", i))
+			case x < 8:
+				outs[i] = P(false, obj(fmt.Sprintf("m%d", i), i))
+			case x < 9:
+				outs[i] = E(fmt.Sprintf("e%d", i))
+			default:
+				outs[i] = N
+			}
+		}
+		g.deadlineZero(c%2, outs)
+	}
+
 	// 2. exhaustive small scope: every outcome vector x every arrival order
 	g.seen = map[string]bool{}
 	maxN := 3
@@ -1281,7 +1552,7 @@ func main() {
 	g.seen = nil
 
 	// 3. structured random: up to 8 backends, overlapping fields, nested values
-	nRandom, nDeadline, nAcc, nComb := 1200, 10, 700, 300
+	nRandom, nDeadline, nAcc, nComb := 1000, 10, 600, 200
 	if cfg.Thorough() {
 		nRandom, nDeadline, nAcc, nComb = 12000, 100, 6000, 1500
 	}
@@ -1356,6 +1627,6 @@ func main() {
 	}
 
 	w.Meta["imposed_orders"] = "arrival order imposed through proxy.SetVerifOnDequeue (site merge) and per-backend gates; cancelled backends deliver when the harness cancels the parent context"
-	w.Close(fmt.Sprintf("corpus of order-sensitive scenarios (both constructions); instance reuse: one proxy serving sequences of 3-6 different scenarios (telling corpus + random) and 10 scenarios from 12 goroutines at once (each distinct (scenario, observation) pair once); every vector of %d outcome kinds (incl. error together with a response, errors implementing Errors() with 0/2 inner errors; 8 of them for 3 backends in quick, 6 for 4 backends) x every arrival order for 2..%d backends (orders that collapse because cancelled backends deliver together are run once; n=2 also through DefaultFactory); %d random scenarios with 2..8 backends, overlapping fields, nested values; %d deadline scenarios; %d accumulator call sequences (2..12 calls, total = number of calls) and %d combineData(2, [a, b]) calls; nontrivial = some backend is not a complete non-null payload or two payloads share a field",
+	w.Close(fmt.Sprintf("corpus of order-sensitive scenarios (both constructions); the caller's context cancelled at an exact late point (after k receives, every other message already delivered: corpus, all 12x12 vectors for 2 backends, random) and endpoints with timeout 0 (outcomes read off the response); instance reuse: one proxy serving sequences of 3-6 different scenarios (telling corpus + random) and 10 scenarios from 12 goroutines at once (each distinct (scenario, observation) pair once); every vector of %d outcome kinds (incl. error together with a response, errors implementing Errors() with 0/2 inner errors; 8 of them for 3 backends in quick, 6 for 4 backends) x every arrival order for 2..%d backends (orders that collapse because cancelled backends deliver together are run once; n=2 also through DefaultFactory); %d random scenarios with 2..8 backends, overlapping fields, nested values; %d deadline scenarios; %d accumulator call sequences (2..12 calls, total = number of calls) and %d combineData(2, [a, b]) calls; nontrivial = some backend is not a complete non-null payload or two payloads share a field",
 		smallKinds, maxN, nRandom, nDeadline, nAcc, nComb), true)
 }
